@@ -224,7 +224,7 @@ def finish(ctx, *, level, evaluations, distinct_nontrivial, rule, samples, exhau
     rc = 0
     if new:
         rc = 1
-        rdir = VERIF / "replay"
+        rdir = VERIF / ("replay" if REPO == Path("/repo") else "replay-seeded")     # runs against another tree (seeded changes) leave the committed files alone
         rdir.mkdir(exist_ok=True)
         # group by key, save at most 5 replay files, print one line per saved file
         bykey = {}
@@ -264,8 +264,9 @@ def finish(ctx, *, level, evaluations, distinct_nontrivial, rule, samples, exhau
     ev = {"property_id": ctx.prop, "tier": ctx.tier, "seed": int(ctx.seed), "level": level,
           "coverage": cov, "assumptions": list(assumptions),
           "wall_s": round(time.time() - ctx.t0, 2), "violations": len(new)}
-    (VERIF / "evidence").mkdir(exist_ok=True)
-    (VERIF / "evidence" / f"{ctx.prop}.json").write_text(json.dumps(ev, indent=1, default=str))
+    edir = VERIF / ("evidence" if REPO == Path("/repo") else "evidence-seeded")
+    edir.mkdir(exist_ok=True)
+    (edir / f"{ctx.prop}.json").write_text(json.dumps(ev, indent=1, default=str))
     print(f"{ctx.prop} {ctx.tier}: evaluations={evaluations} states={ctx.states} "
           f"violations={len(new)} known={len(seen_known)} wall={ev['wall_s']}s")
     return rc
